@@ -442,7 +442,14 @@ func init() {
 		"strconv.ParseFloat": func(in *Interp, caller *frame, fn *ssa.Function, a []Value) Value {
 			s, ok := a[0].(Str).Concrete()
 			if !ok {
-				in.unsupported("strconv.ParseFloat on symbolic string")
+				// contract stub: any float64, with or without an error
+				in.noteAssumption("strconv.ParseFloat on symbolic text returns an unconstrained float64 and an unconstrained error/no-error outcome")
+				n := in.nextUndef()
+				f := in.ts.FFromBits(in.ts.Var("pfv"+itoa(n)+"_v64", BV(64)))
+				if in.branch(in.ts.Var("pfe"+itoa(n)+"_b", BoolSort)) {
+					return Tuple{f, in.errorValue("strconv.ParseFloat: parsing: invalid syntax")}
+				}
+				return Tuple{f, Iface{}}
 			}
 			f, err := strconv.ParseFloat(s, in.concreteInt(a[1], "bitSize"))
 			return Tuple{in.ts.F64Const(f), in.mkError(err)}
@@ -765,6 +772,15 @@ func (in *Interp) symSprintf(f string, argv Value) Value {
 				} else {
 					out = in.strConcat(out, s)
 				}
+			} else {
+				in.unsupported("fmt: symbolic argument for " + verb)
+			}
+		} else if itf, isI := arg.(Iface); isI {
+			if t, isT := itf.v.(*Term); isT && t.sort.K == SBV {
+				// diagnostics only: a symbolic integer/rune is rendered as one
+				// unconstrained byte (the text is not interpreted by the kernels)
+				in.noteAssumption("fmt " + verb + " of a symbolic integer is rendered as one unconstrained byte (diagnostic text)")
+				out = in.strConcat(out, Str{s: []*Term{in.ts.Var("fmtopaque"+itoa(in.nextUndef())+"_v8", BV(8))}})
 			} else {
 				in.unsupported("fmt: symbolic argument for " + verb)
 			}
